@@ -13,7 +13,16 @@ class Untranslatable(Exception):
     pass
 
 
+_RENAME: Dict[str, str] = {}
+
+
 def _expr(e: ast.AST, bools: set) -> str:
+    if _RENAME and not isinstance(e, ast.Constant):
+        key = ast.unparse(e)
+        if key in _RENAME:
+            return _RENAME[key]
+    if isinstance(e, ast.IfExp):
+        return f"(if {_cond(e.test, bools)} then {_expr(e.body, bools)} else {_expr(e.orelse, bools)})"
     if isinstance(e, ast.Constant):
         if isinstance(e.value, bool):
             return "true" if e.value else "false"
@@ -77,6 +86,19 @@ def _body(stmts: List[ast.stmt], bools: set) -> str:
         # an `if` without return falling through is not supported
         return f"(if {_cond(s.test, bools)} then {then} else {_body(list(rest), bools)})"
     raise Untranslatable(ast.dump(s))
+
+
+def translate_expression(expr: ast.AST, lean_name: str, rename: Dict[str, str]) -> str:
+    """one expression of the source (e.g. the right-hand side of an assignment inside a method) as a Lean function of the renamed sub-expressions:
+    `rename` maps source text (as printed by ast.unparse, e.g. 'self._data_every') to a Lean parameter name; every parameter is an Int"""
+    global _RENAME
+    _RENAME = dict(rename)
+    try:
+        body = _expr(expr, set())
+    finally:
+        _RENAME = {}
+    params = " ".join(f"({v} : Int)" for v in dict.fromkeys(rename.values()))
+    return f"def {lean_name} {params} : Int :=\n  {body}\n"
 
 
 def translate(func, lean_name: str) -> str:
